@@ -146,19 +146,21 @@ def generate(rng, tier):
             opsB.append({"op": "exec", "lang": "en", "text": t})
         cases.append({"ops": opsB, "meta": {"kind": "survivors", "checks": [], "interesting": False, "pair": 2 * k,
                                            "final_from": baseB, "role": "B"}})
-    # user-defined unit families
+    # user-defined unit families; the duplicate registrations come AFTER the family has items, and one targets a
+    # built-in family: a rejected registration must not change any behaviour
+    def item(name, index, fmt, word, up, down):
+        return {"op": "add_type_item", "name": name, "index": index, "format": fmt, "parse": ["{NUMBER:value} {TEXT:type:%s}" % word],
+                "up": up, "down": down, "names": [word]}
     fam = [{"op": "add_type", "name": "coin"}, {"op": "add_type", "name": "coin"},
-           {"op": "add_type_item", "name": "nofamily", "index": 1, "format": "{value} q", "parse": ["{NUMBER:value} {TEXT:type:q}"],
-            "up": "{value}", "down": "{value}", "names": ["q"]},
-           {"op": "add_type_item", "name": "coin", "index": 1, "format": "{value} d", "parse": ["{NUMBER:value} {TEXT:type:penny}"],
-            "up": "{value} / 12", "down": "{value}", "names": ["penny"]},
-           {"op": "add_type_item", "name": "coin", "index": 2, "format": "{value} s", "parse": ["{NUMBER:value} {TEXT:type:shilling}"],
-            "up": "{value} / 20", "down": "{value} * 12", "names": ["shilling"]},
-           {"op": "add_type_item", "name": "coin", "index": 3, "format": "{value} L", "parse": ["{NUMBER:value} {TEXT:type:pound}"],
-            "up": "{value}", "down": "{value} * 20", "names": ["pound"]},
-           {"op": "add_type_item", "name": "coin", "index": 3, "format": "{value} X", "parse": ["{NUMBER:value} {TEXT:type:pound}"],
-            "up": "{value}", "down": "{value} * 2", "names": ["pound"]}]
-    rets = [True, False, False, True, True, True, False]
+           item("nofamily", 1, "{value} q", "q", "{value}", "{value}"),
+           item("coin", 1, "{value} d", "penny", "{value} / 12", "{value}"),
+           item("coin", 2, "{value} s", "shilling", "{value} / 20", "{value} * 12"),
+           item("coin", 3, "{value} L", "pound", "{value}", "{value} * 20"),
+           item("coin", 3, "{value} X", "pound", "{value}", "{value} * 2"),
+           {"op": "add_type", "name": "coin"},
+           item("coin", 1, "{value} Y", "penny", "{value} / 7", "{value}"),
+           {"op": "add_type", "name": "memory"}, {"op": "add_type", "name": "metric-weight"}]
+    rets = [True, False, False, True, True, True, False, False, False, False, False]
     checks = [("ret", i, r) for i, r in enumerate(rets)]
     probes = [("480 penny to pound", 2.0, 3), ("1 pound to penny", 240.0, 1), ("3 shilling to penny", 36.0, 1),
               ("36 penny to shilling", 3.0, 2), ("40 shilling to pound", 2.0, 3), ("2 pound to shilling", 40.0, 2),
@@ -167,6 +169,10 @@ def generate(rng, tier):
     for t, v, idx in probes:
         ops.append({"op": "exec", "lang": "en", "text": t})
         checks.append(("unit", len(ops) - 1, v, idx))
+    for t in ["2048 kb to mb", "1 km to m", "3 kg + 500 g", "1 mile to km", "8 bit to byte"]:
+        ops.append({"op": "exec", "lang": "en", "text": t})
+        ops.append({"op": "exec_fresh", "lang": "en", "text": t})
+        checks.append(("same", len(ops) - 2, len(ops) - 1))
     cases.append({"ops": ops, "meta": {"kind": "family", "checks": checks, "interesting": True, "pair": None}})
     return cases
 
